@@ -179,6 +179,13 @@ def execute(case: dict) -> dict:
     ds = viafile.hold_ds(w, build(w))
     conv = W.bind(w, ds)
     rec = {"tid": case["tid"], "src": case["src"], "w": tlc_world(w), "events": []}
+    convs = {id(ds): (ds, conv)}
+
+    def conv_of(d):
+        """the convention object of a dataset, bound once (plain Arakawa C has to be bound by hand, and only once)"""
+        if id(d) not in convs:
+            convs[id(d)] = (d, W.bind(w, d))
+        return convs[id(d)][1]
     cur = ds
     opt = {"none": None, "yes": True, "no": False}
     names = [dc["name"] for dc in w["depths"]]
@@ -191,7 +198,7 @@ def execute(case: dict) -> dict:
                 with warnings.catch_warnings(record=True) as caught:
                     warnings.simplefilter("always")
                     if e["via"] == "accessor":
-                        cc = W.bind(w, c) if c is not ds else conv
+                        cc = conv_of(c)
                         r = cc.normalize_depth_variables(positive_down=opt[e["pd"]], deep_to_shallow=opt[e["d2s"]])
                     else:
                         r = depth.normalize_depth_variables(c, names, positive_down=opt[e["pd"]], deep_to_shallow=opt[e["d2s"]])
@@ -199,10 +206,15 @@ def execute(case: dict) -> dict:
                 cur = r
                 return out
             e["obs"] = outcome(norm)
+        elif e["a"] == "Touch":
+            def touch():
+                cc = conv_of(cur)
+                return {"names": sorted(str(d.name) for d in cc.depth_coordinates), "n": len(list(cc.get_all_depth_names()))}
+            e["obs"] = outcome(touch)
         elif e["a"] == "OceanFloor":
             def floor():
                 c = cur
-                cc = W.bind(w, c) if c is not ds else conv
+                cc = conv_of(c)
                 inpolys = [polygon_vertices(p) for p in cc.polygons]
                 if e["via"] == "accessor":
                     r = cc.ocean_floor()
@@ -250,6 +262,9 @@ def _cases(tier: str, seed: int, *, kinds=("norm", "floor")) -> list[dict]:
                 if rng.random() < .5:
                     ev.append({"a": "Normalize", "pd": rng.choice(opts), "d2s": rng.choice(opts), "via": "function"})
                 ev.append({"a": "OceanFloor", "via": "accessor" if rng.random() < .5 else "function"})
+                ev.append({"a": "OceanFloor", "via": "accessor"})        # asked again of the same dataset object
+            # the depth coordinates of the dataset have been looked at before (same dataset object, same convention object)
+            ev.insert(0, {"a": "Touch", "via": "accessor"})
             out.append({"src": "gen", "world": w, "events": ev})
     if "norm" in kinds:
         # two coordinates on one depth dimension, through the accessor and through the function
